@@ -121,6 +121,11 @@ def run(prop, tier, seed):
                        f"but satisfy every post-condition, e.g. {json.dumps(res['replay_examples'][:1])[:400]}")
         log("SPEC-DRIFT: the real unifier deviates from Unify.tla without violating a property")
     log(f"[{prop}] UnifyTrace: {res['counts']}; {len(res['viol'])} failing records ({len(mine)} for {prop})")
+    packed = None
+    if prop == "C14":
+        import packedmodel
+        packed = packedmodel.run(tier, seed)
+        packedmodel.report(prop, v, packed)
     cov = {
         "states": res["states"],
         "transitions": res["transitions"],
@@ -136,5 +141,9 @@ def run(prop, tier, seed):
                 "evidence x 3 runs; whole-pipeline repeats of generated idiom contracts, control-flow programs and real contracts",
         "samples": [res["sample"]],
     }
+    if packed:
+        cov["packed_merge_model"] = packedmodel.coverage(packed)
+        cov["states"] += packed["states"]
+        cov["rule"] += "; every pair of packed encodings of <= 2/3 spans over 5/6 units combined by the real merge (PackedMerge.tla)"
     return v.finish("model_checking", cov, ["TLC + community modules", "the forest is projected through find/get_data",
                     "fresh RandomState keys per HashSet make repeated in-process runs explore different iteration orders"])
